@@ -171,6 +171,8 @@ Op parse_op(const vh::Words& w, const std::string& raw) {
     Op o; o.raw = raw; o.ok = false; o.t = '?';
     if (w.empty()) return o;
     if (w[0] == "M0" && w.size() == 1) { o.t = 'M'; o.field = "mock_c"; o.ok = true; return o; }
+    // `P <word>`: a remark of the generator about the scenario (e.g. `P aligned`); echoed, not executed
+    if (w[0] == "P" && w.size() == 2) { o.t = 'P'; o.field = w[1]; o.ok = true; return o; }
     if (w[0] == "M" && w.size() == 2) {
         o.t = 'M'; o.field = "mock_scope_c"; o.a.push_back(w[1]); o.dec.resize(1);
         o.ok = check_arg('n', w[1], o.dec[0]); return o;
@@ -515,13 +517,14 @@ size_t g_i = 0;
 void body() {
     for (g_i = 0; g_i < g_ops.size(); g_i++) {
         g_o = &g_ops[g_i];
-        bool have = g_o->ok && (g_o->t == 'M' ||
+        bool have = g_o->ok && (g_o->t == 'M' || g_o->t == 'P' ||
             (g_o->t == 'S' && (g_run == 'x' ? (void*) x_sup : (void*) c_sup)) ||
             (g_o->t == 'E' && (g_run == 'x' ? (void*) x_ec : (void*) c_ec)) ||
             (g_o->t == 'A' && (g_run == 'x' ? (void*) x_ac : (void*) c_ac)));
         if (!have) { vh::emit("> skip"); continue; }
         vh::emit("> %c %lu %s", g_run, (unsigned long) g_i, g_o->raw.c_str());
         fflush(stdout);
+        if (g_o->t == 'P') continue;
         if (g_run == 'x') exec_x(); else exec_c();
         dump_out();
     }
